@@ -114,6 +114,7 @@ func (e *Engine) verifyFunction(c *Contract, init *State, caseBits int) (res *Fu
 	e.replacers = map[int][]*Term{}
 	e.tmplFuncs = map[int]*Term{}
 	e.callHist = map[string]*Term{}
+	e.callCount = map[string]int{}
 	e.allocParent = map[int]*Term{}
 	e.topFn = fn
 	e.topContract = c
